@@ -25,6 +25,7 @@
 //	var-decl      x := e                    →  var x = e
 //	rename-local  a local variable renamed consistently (fresh name)
 //	move-func     a function declaration moved to the end of its file
+//	named-const   a numeric or string literal in a function body  →  a package-level untyped constant with that value
 //	rename-func   an unexported function or method renamed consistently (not referenced by tests, not an interface method)
 //	rename-field  an unexported struct field renamed consistently (not referenced by tests)
 //	method-func   unexported method m of T  →  function m(recv T, …), every call x.m(a) → m(x, a)
@@ -817,6 +818,55 @@ func structuralSites(parsed map[string]*ast.File, names []string, testText strin
 			}
 		}
 	}
+	// named-const
+	for _, f := range names {
+		af := parsed[f]
+		f := f
+		for _, d := range af.Decls {
+			fd, ok := d.(*ast.FuncDecl)
+			if !ok || fd.Body == nil {
+				continue
+			}
+			// parents, to replace the literal in place
+			var stack []ast.Node
+			ast.Inspect(fd.Body, func(n ast.Node) bool {
+				if n == nil {
+					stack = stack[:len(stack)-1]
+					return true
+				}
+				stack = append(stack, n)
+				bl, ok := n.(*ast.BasicLit)
+				if !ok || (bl.Kind != token.INT && bl.Kind != token.FLOAT && bl.Kind != token.STRING) || len(stack) < 2 {
+					return true
+				}
+				// not inside a type expression (array length), a constant declaration or a struct tag
+				for _, anc := range stack {
+					switch a := anc.(type) {
+					case *ast.ArrayType, *ast.Field, *ast.StructType:
+						return true
+					case *ast.GenDecl:
+						if a.Tok == token.CONST {
+							return true
+						}
+					}
+				}
+				parent := stack[len(stack)-2]
+				bl2 := bl
+				out = append(out, site{file: f, line: fset.Position(bl.Pos()).Line, op: "named-const", detail: bl.Value, apply: func() {
+					nameN++
+					cn := fmt.Sprintf("litEq%d", nameN)
+					id := ast.NewIdent(cn)
+					replaced := false
+					replaceChild(parent, bl2, id, &replaced)
+					if !replaced {
+						return
+					}
+					af.Decls = append(af.Decls, &ast.GenDecl{Tok: token.CONST, Specs: []ast.Spec{&ast.ValueSpec{Names: []*ast.Ident{ast.NewIdent(cn)}, Values: []ast.Expr{&ast.BasicLit{Kind: bl2.Kind, Value: bl2.Value}}}}})
+				}})
+				return true
+			})
+		}
+	}
 	// rename-field: every unexported field of a struct type declared in the package
 	for _, f := range names {
 		af := parsed[f]
@@ -986,4 +1036,54 @@ func structuralSites(parsed map[string]*ast.File, names []string, testText strin
 		}
 	}
 	return out
+}
+
+// replaceChild replaces the expression old, a direct child of parent, by repl.
+func replaceChild(parent ast.Node, old ast.Expr, repl ast.Expr, done *bool) {
+	sw := func(e *ast.Expr) {
+		if *e == old {
+			*e = repl
+			*done = true
+		}
+	}
+	sws := func(es []ast.Expr) {
+		for i := range es {
+			sw(&es[i])
+		}
+	}
+	switch p := parent.(type) {
+	case *ast.BinaryExpr:
+		sw(&p.X)
+		sw(&p.Y)
+	case *ast.UnaryExpr:
+		sw(&p.X)
+	case *ast.ParenExpr:
+		sw(&p.X)
+	case *ast.CallExpr:
+		sws(p.Args)
+	case *ast.IndexExpr:
+		sw(&p.Index)
+	case *ast.SliceExpr:
+		sw(&p.Low)
+		sw(&p.High)
+		sw(&p.Max)
+	case *ast.AssignStmt:
+		sws(p.Rhs)
+	case *ast.ReturnStmt:
+		sws(p.Results)
+	case *ast.KeyValueExpr:
+		sw(&p.Value)
+	case *ast.CompositeLit:
+		sws(p.Elts)
+	case *ast.ValueSpec:
+		sws(p.Values)
+	case *ast.IfStmt:
+		sw(&p.Cond)
+	case *ast.ForStmt:
+		sw(&p.Cond)
+	case *ast.CaseClause:
+		sws(p.List)
+	case *ast.SendStmt:
+		sw(&p.Value)
+	}
 }
